@@ -1,8 +1,10 @@
 """C18 — a format string maps columns by position, and inspect's suggestion round-trips.
 Proof: C18/Props.v over the hand model C18/Model.v and the constants regenerated from /repo
-(Gen/C18Keywords.v, tools/c18_tables.py).  Tie: parse_format_string, `tally inspect`'s printed
-detection + suggestion, and the two template scans are compared with the model inside Coq
-(vm_compute).  Search: the property restated over implementation outputs only (direct oracle)."""
+(Gen/C18Keywords.v, tools/c18_tables.py).  Tie: parse_format_string and `tally inspect`'s printed
+detection + suggestion are compared with the model inside Coq (vm_compute); CPython's
+string.Formatter().parse, which the template validation calls, is a parameter of the model and its
+answers are supplied per case (two-phase).  Search: the property restated over implementation outputs
+only (direct oracle)."""
 import itertools
 import json
 import os
@@ -77,21 +79,28 @@ def mk_col(rnd, k, name=None, plainish=False):
 
 # --------------------------------------------------------------------------- templates
 def formatter_names(t):
-    """names str.format would look up; None if the template is malformed / outside the modelled grammar"""
+    """Names str.format would look up as keywords (argument name of every replacement field, also of fields nested
+    in format specs); None if t is not a valid format string. Positional / auto-numbered fields ('', digits) are
+    returned too, marked by the caller."""
     try:
         out = []
         for _lit, field, spec, _conv in _string_mod.Formatter().parse(t):
             if field is None:
                 continue
-            if spec and ('{' in spec or '}' in spec):
-                return None
-            first = formatter_field_name_split(field)[0]
-            if first == '':
-                continue
-            out.append(str(first))
+            out.append(str(formatter_field_name_split(field)[0]))
+            if spec:
+                sub = formatter_names(spec)
+                if sub is None:
+                    return None
+                out += sub
         return out
     except ValueError:
         return None
+
+
+def keyword_names(t):
+    tn = formatter_names(t)
+    return None if tn is None else [n for n in tn if n != '' and not n.isdigit()]
 
 
 PLAIN_TEMPLATE = re.compile(r'(?:[^{}]|\{\w+\})*\Z')
@@ -118,7 +127,7 @@ def rand_template(rnd, usable, all_names, good=None):
             pieces.append('{' + n + '}')
         else:
             form = rnd.choice(['{%s}', '{%s}', '{%s:>10}', '{%s!r}', '{%s.real}', '{%s[0]}', '{{%s}}', '{%s:}', '{ %s}',
-                               '{%s }', '{%s!s:^5}'])
+                               '{%s }', '{%s!s:^5}', '{merchant:{%s}}', '{%s:{w}}', '{%s:>{type}}', '{%s!x}', '{%s!rr}'])
             pieces.append(form % n)
             if rnd.random() < 0.15:
                 pieces.append(rnd.choice(['{}', '{0}', '{{', '}}', '{', '}']))
@@ -145,7 +154,7 @@ def expectation(cols, tmpl):
         return 'reject', 'missing'
     usable = [] if 'desc' in kinds else names
     if tmpl:
-        tn = formatter_names(tmpl)
+        tn = keyword_names(tmpl)
         if tn is not None and any(n not in usable for n in tn):
             return 'reject', 'uncaptured'
     for c in cols:
@@ -153,12 +162,15 @@ def expectation(cols, tmpl):
             return None, 'date-format-outside-syntax'
         if c['sp']['jspec'] is not None and (c['sp']['jspec'] == '' or ',' in c['sp']['jspec'] or '}' in c['sp']['jspec']):
             return None, 'spec-outside-syntax'
-    if 'desc' in kinds:
-        if tmpl:
-            return None, 'template-with-description'
-    else:
-        if not tmpl or not PLAIN_TEMPLATE.match(tmpl) or any(n not in usable for n in re.findall(r'\{(\w+)\}', tmpl)):
-            return None, 'template-not-plain'
+    if tmpl:
+        allnames = formatter_names(tmpl)
+        if allnames is None:
+            return None, 'template-not-a-format-string'
+        if any(n == '' or n.isdigit() for n in allnames):
+            return None, 'template-with-positional-field'
+        # (every keyword name is usable here, otherwise 'uncaptured' above)
+    elif 'desc' not in kinds:
+        return None, 'custom-captures-without-template'
     exp = {'date': kinds.index('date'), 'amount': kinds.index('amount'),
            'desc': kinds.index('desc') if 'desc' in kinds else None,
            'loc': kinds.index('loc') if 'loc' in kinds else None,
@@ -185,7 +197,7 @@ def oracle_parse(case, r):
         if exp == 'uncaptured':
             kinds = [c['k'] for c in case['cols']]
             usable = [] if 'desc' in kinds else [c['name'] for c in case['cols'] if c['k'] == 'custom']
-            bad = [n for n in formatter_names(case['tmpl']) if n not in usable]
+            bad = [n for n in (keyword_names(case['tmpl']) or []) if n not in usable]
             plain = set(re.findall(r'\{(\w+)\}', case['tmpl']))
             if bad and not any(n in plain for n in bad):
                 sig = KNOWN_NONPLAIN     # every uncaptured name occurs only as {name:spec} / {name!c} / {name.a} / {name[i]} / { name }
@@ -351,7 +363,10 @@ def gen_parse_cases(seed, tier):
                       ('{DATE},{Amount},{DESCRIPTION},{LOCATION},{FIELD}', None),
                       ('{date},{amount},{description},{field},{field}', None),
                       ('{date},{amount},{description},{_},{_},{*},{*}', None),
-                      ('{date},{amount},{Merchant}', '{Merchant}'), ('{date},{amount},{merchant}', '{{merchant}}')]:
+                      ('{date},{amount},{Merchant}', '{Merchant}'), ('{date},{amount},{merchant}', '{{merchant}}'),
+                      ('{date},{amount},{merchant}', '{merchant:{w}}'), ('{date},{amount},{merchant},{w}', '{merchant:>{w}}'),
+                      ('{date},{amount},{merchant}', '{merchant'), ('{date},{amount},{merchant}', '{merchant}}'),
+                      ('{date},{amount},{merchant}', '{merchant.a[0]!r:>3}'), ('{date},{amount},{description}', '{x!r}')]:
         cases.append({'cols': None, 'tmpl': tmpl, 'fmt': fmt, 'src': 'fixed', 'mut': {'kind': 'fixed', 'must_reject': False}})
     return cases
 
@@ -415,17 +430,6 @@ def gen_inspect_cases(seed, tier, tables):
     return cases
 
 
-def gen_templates(seed, tier, parse_cases):
-    rnd = random.Random(seed * 31 + 18)
-    ts = {c['tmpl'] for c in parse_cases if c['tmpl']}
-    for _ in range(150 if tier == 'quick' else 3000):
-        ts.add(rand_template(rnd, ['merchant', 'type'], ['a', 'b2'], good=rnd.random() < 0.3))
-    ts |= {'{a}{b}', '{{a}}', '{{{a}}}', '}}{a}{{', '{a}}', '{a:{b}}', '{}', '{0}{1}', '{a.b.c}', '{a[b]}{c!r:>3}', 'plain', '{ }',
-           '{a b}', '{a-b}', '{_x}', '{a}}}{b}', '日{a}日'}
-    # outside the ASCII fragment of \w: non-ASCII text inside braces (generated templates never do this)
-    return sorted(t for t in ts if not re.search(r'\{[^{}]*[^\x00-\x7f][^{}]*\}', t))
-
-
 # --------------------------------------------------------------------------- model side (Coq)
 HEADER = '''From Coq Require Import String List Bool NArith Arith Ascii.
 From Tally Require Import Lib.Str Gen.C18Keywords C18.Model.
@@ -441,9 +445,13 @@ Definition ostr_eqb (a b : option string) : bool :=
 Definition pair_eqb (a b : string * nat) : bool := (String.eqb (fst a) (fst b) && Nat.eqb (snd a) (snd b))%bool.
 Definition same_pairs (a b : list (string * nat)) : bool :=
   (Nat.eqb (length a) (length b) && forallb (fun x => existsb (pair_eqb x) b) a)%bool.
-Definition ok_parse (c : string * option string * pexp) : bool :=
-  let '(f, t, e) := c in
-  match parse_format f t, e with
+(* what CPython's string.Formatter().parse answered (template and nested specs of this case) *)
+Definition ftab := list (string * option (list (string * string))).
+Definition fp_of (tab : ftab) : string -> option (list (string * string)) :=
+  fun s => match find (fun e => String.eqb s (fst e)) tab with Some e => snd e | None => None end.
+Definition ok_parse (c : string * option string * ftab * pexp) : bool :=
+  let '(f, t, tab, e) := c in
+  match parse_format (fp_of tab) f t, e with
   | Err _, PErr => true
   | Ok s, POk d fm a de lo cu ex ng ab tm =>
       (Nat.eqb (f_date s) d && String.eqb (f_date_format s) fm && Nat.eqb (f_amount s) a && onat_eqb (f_desc s) de
@@ -461,12 +469,6 @@ Definition ok_inspect (c : list string * iexp) : bool :=
        && onat_eqb (a_loc d) lo && String.eqb (suggest d) sg)%bool
   | _, _ => false
   end.
-Fixpoint strs_eqb (a b : list string) : bool :=
-  match a, b with [], [] => true | x :: r, y :: s => (String.eqb x y && strs_eqb r s)%bool | _, _ => false end.
-(* (template, Some names str.format looks up | None = malformed for str.format, plain {name} references) *)
-Definition ok_template (c : string * option (list string) * list string) : bool :=
-  let '(t, names, refs) := c in
-  (strs_eqb (template_refs t) refs && match names with Some l => strs_eqb (format_names t) l | None => true end)%bool.
 Fixpoint failing {A} (ok : A -> bool) (i : nat) (l : list A) : list nat :=
   match l with [] => [] | c :: r => if ok c then failing ok (S i) r else i :: failing ok (S i) r end.
 '''
@@ -527,7 +529,17 @@ def run_chunks(name, rows, okfn, chunk=400):
     return sorted(bad), ''
 
 
-def model_check(parse_cases, parse_res, insp_cases, insp_res, templates, tmpl_res):
+def coq_ftab(tab):
+    rows = []
+    for k, v in tab:
+        if v is None:
+            rows.append(f'({coq_str(k)}, None)')
+        else:
+            rows.append(f"({coq_str(k)}, Some [{'; '.join(f'({coq_str(a)}, {coq_str(b)})' for a, b in v)}])")
+    return '[' + '; '.join(rows) + ']'
+
+
+def model_check(parse_cases, parse_res, insp_cases, insp_res):
     """Returns list of broken-correspondence records and counters."""
     broken, counts = [], {}
     rows, idx, direct = [], [], []
@@ -536,7 +548,7 @@ def model_check(parse_cases, parse_res, insp_cases, insp_res, templates, tmpl_re
         if e is None:
             direct.append(i)
             continue
-        rows.append(f"({coq_str(c['fmt'])}, {ostr(c['tmpl'])}, {e})")
+        rows.append(f"({coq_str(c['fmt'])}, {ostr(c['tmpl'])}, {coq_ftab(r.get('ftab') or [])}, {e})")
         idx.append(i)
     bad, err = run_chunks('parse', rows, 'ok_parse')
     counts['parse'] = len(rows)
@@ -579,24 +591,6 @@ def model_check(parse_cases, parse_res, insp_cases, insp_res, templates, tmpl_re
         broken.append({'kind': 'broken-correspondence', 'obligation': 'model_vs_impl(C18.Model.auto_detect+suggest, tally inspect)',
                        'detail': {'headers': insp_cases[j]['headers'], 'implementation': insp_res[j], 'n_disagreeing': len(bad)},
                        'indices': [idx[b] for b in bad][:50]})
-    rows = []
-    nmal = 0
-    for t, r in zip(templates, tmpl_res):
-        names = 'None'
-        if 'names' in r:
-            names = 'Some [' + '; '.join(coq_str(n) for n in r['names']) + ']'
-        else:
-            nmal += 1
-        rows.append(f"({coq_str(t)}, {names}, [{'; '.join(coq_str(n) for n in r['refs'])}])")
-    bad, err = run_chunks('tmpl', rows, 'ok_template')
-    counts['templates'] = len(rows)
-    counts['templates_malformed_for_str_format'] = nmal
-    if bad is None:
-        broken.append({'kind': 'broken-correspondence', 'obligation': 'model_vs_impl(template_refs/format_names, re.findall/str.format)',
-                       'detail': 'cases.v did not evaluate: ' + err})
-    elif bad:
-        broken.append({'kind': 'broken-correspondence', 'obligation': 'model_vs_impl(template_refs/format_names, re.findall/str.format)',
-                       'detail': {'template': templates[bad[0]], 'implementation': tmpl_res[bad[0]], 'n_disagreeing': len(bad)}})
     return broken, counts
 
 
@@ -718,18 +712,23 @@ def main(tier):
     run.assumptions = [
         'parse_format_string, auto_detect_csv_format (header matching) and the suggestion builder of cmd_inspect are modelled by '
         'hand at character level (C18/Model.v) and tied to the code by the correspondence check; RESERVED_NAMES, both default '
-        'date formats and the four header keyword lists are translated from the source on every run; the two regular '
-        'expressions and the "," separator are pinned literally by the translator (a change is a translation failure)',
+        'date formats and the four header keyword lists are translated from the source on every run; the field regular '
+        'expression, the "," separator and the whole helper _template_field_names are pinned by the translator (a change is a '
+        'translation failure)',
         'strings are bytes; str.lower, str.strip\'s blank set and the regex class \\w are modelled for ASCII (non-ASCII bytes are '
         'neither blank nor word characters and unchanged by lower): generated names, blanks and header keywords are ASCII, '
         'non-ASCII text only appears where it is passed through (date formats, template literals, header noise without case)',
         'c18_positions is stated for date formats without "," and "}" (the format syntax cannot express them) and custom names that '
         'are lower-case \\w+ words outside RESERVED_NAMES; a token followed by trailing text ({date}x) is accepted by the code '
         'and the model alike and is not covered by the property',
-        'CPython\'s csv reader/writer round-trip, re and str.format are libraries: the header row is given to the model as the '
-        'list of cells; format_names models str.format\'s field-name scan for templates without nested braces in format specs',
-        'c18_reject_uncaptured_template holds only for plain {name} references (c18_reject_uncaptured_template_refuted, witness '
-        '"{merchant} {nope:>10}"); recorded as known finding ' + KNOWN_NONPLAIN]
+        'CPython\'s csv reader/writer round-trip, re and string.Formatter().parse are libraries: the header row is given to the '
+        'model as the list of cells; Formatter().parse is a universally quantified parameter of every theorem (section variable) '
+        'and, for execution, the table of its answers on the case\'s template and nested format specs (computed by the '
+        'implementation\'s interpreter, no tally code involved)',
+        '"a template names a column" is Spec.looks_up: the argument name (up to the first "." or "[") of a replacement field '
+        'reported by the library parser, at any nesting depth; positional fields count as the names "" / digits (over-approximation)',
+        'history: before the fix of ' + KNOWN_NONPLAIN + ' only plain {name} references were checked; that signature is '
+        'now listed as fixed and a regression is reported as VIOLATION']
     tfails = regen_gen()
     res = run.proof_step(COQ_FILES, extra_trusted=[
         'tools/c18_tables.py (table translator, fail closed)', 'harness/c18.py + harness/impl_c18.py (generators, correspondence, oracle)',
@@ -750,17 +749,16 @@ def main(tier):
 
     pcases = gen_parse_cases(run.seed, tier)
     icases = gen_inspect_cases(run.seed, tier, tables)
-    templates = gen_templates(run.seed, tier, pcases)
     out = run_impl(IMPL, {'parse': [{'fmt': c['fmt'], 'tmpl': c['tmpl']} for c in pcases], 'inspect': icases,
-                          'templates': templates, 'workdir': WORKDIR}, timeout=3000)
-    pres, ires, tres = out['parse'], out['inspect'], out['templates']
+                          'workdir': WORKDIR}, timeout=3000)
+    pres, ires = out['parse'], out['inspect']
 
     pfail = [(c, r, o) for c, r in zip(pcases, pres) for o in [oracle_parse(c, r)] if o]
     ifail = [(c, r, o) for c, r in zip(icases, ires) for o in [oracle_inspect(c, r)] if o]
 
     counts = {}
     if not tfails and res['ok']:
-        b, counts = model_check(pcases, pres, icases, ires, templates, tres)
+        b, counts = model_check(pcases, pres, icases, ires)
         broken += b
     unknown_fail = [x for x in pfail if not (x[2][2] and any(f.get('signature') == x[2][2] for f in run.findings))]
     if broken and not unknown_fail and not ifail:
@@ -833,12 +831,12 @@ def main(tier):
     idet = sum(1 for r in ires if r.get('detected'))
     iloc = sum(1 for r in ires if r.get('detected') and r['detected']['loc'] is not None)
     run.cov.update({
-        'evaluations': len(pcases) + len(icases) + len(templates) + sum(counts.get(k, 0) for k in ('parse', 'inspect', 'templates')),
+        'evaluations': len(pcases) + len(icases) + sum(counts.get(k, 0) for k in ('parse', 'inspect')),
         'distinct_nontrivial': len(nontrivial) + len({tuple(c['headers']) for c, r in zip(icases, ires) if r.get('detected')}),
         'rule': f'every arrangement over {{date, description, amount, location, custom merchant, custom type, skip}} of width <= '
                 f'{4 if tier == "quick" else 5} (one random spelling each) + random arrangements of width 2-12 (valid core, then dropped / '
                 'duplicated columns, {field}) with random blanks (9 ASCII blank characters), letter case, {_}/{*}, +/- prefixes, 18 date '
-                'formats, ignored signs/specs, templates (plain, uncaptured, {n:spec} {n!r} {n.a} {n[0]} {{n}} {} {0}), + 14 kinds of '
+                'formats, ignored signs/specs, templates (plain, uncaptured, {n:spec} {n!r} {n.a} {n[0]} {{n}} {} {0} nested {a:{n}}, malformed), + 14 kinds of '
                 'string-level malformations; header rows of 0-10 cells from the translated keyword lists (random case, prefixes/suffixes, '
                 'near misses, cells matching several lists, duplicates, non-ASCII noise, quoted cells) run through `tally inspect`; '
                 'non-trivial = distinct (format, template) accepted with >= 3 registered columns or rejected with >= 2 columns, plus '
@@ -849,7 +847,7 @@ def main(tier):
         'spelling_features': spell, 'oracle_no_claim': no_claim,
         'inspect_cases': len(icases), 'inspect_detected': idet, 'inspect_detected_with_location': iloc,
         'inspect_crashes': sum(1 for r in ires if r.get('crash')),
-        'template_scan_cases': len(templates), 'model_vs_impl_in_coq': counts,
+        'templates_in_parse_cases': len({c['tmpl'] for c in pcases if c['tmpl']}), 'model_vs_impl_in_coq': counts,
         'oracle_failures': {'parse': len(pfail), 'inspect': len(ifail)}, 'translation_failures': tfails})
     run.finish()
 
